@@ -11,6 +11,11 @@ mod tlv_parse;
 mod lv;
 mod pod;
 mod token;
+mod macros;
+#[path = "/repo/program-error-derive/src/parser.rs"]
+mod parser;
+#[path = "/repo/program-error-derive/src/macro_impl.rs"]
+mod macro_impl;
 
 use emit::Report;
 
@@ -78,6 +83,8 @@ fn main() {
         "C10" => (lv::run_c10(&ctx), 200),
         "C13" => (pod::run_c13(&ctx), 400),
         "C16" | "C17" => (token::run(&ctx, &prop), 150),
+        "C18" => (macros::run_c18(&ctx), 100),
+        "C19" => (macros::run_c19(&ctx), 60),
         "C14" => (pod::run_c14(&ctx), 400),
         _ => {
             eprintln!("unknown property {}", prop);
